@@ -256,14 +256,117 @@ Proof.
   - exfalso. revert Ea. now apply p_assignment_nofuel.
 Qed.
 
-Theorem parse_fuel_adequate s : parse s <> OutOfFuel.
+Lemma p_chain_nofuel s : p_chain (S (length s)) s <> PFuel.
 Proof.
-  unfold parse. destruct (p_chain (S (length s)) s) as [e|e c r|] eqn:E; [discriminate|destruct e; discriminate|].
-  exfalso. unfold p_chain in E. cbv zeta in E.
+  intros E. unfold p_chain in E. cbv zeta in E.
   apply pbind_fuel in E as [E|(e & l & r1 & Hl & E)].
   - revert E. apply p_assignments_nofuel; lia.
   - apply p_assignments_le in Hl.
     apply pbind_fuel in E as [E|(e2 & ret & r2 & _ & E)].
     + revert E. apply p_return_nofuel. lia.
     + destruct (skipws r2); discriminate.
+Qed.
+
+Theorem parse_fuel_adequate s : parse s <> OutOfFuel.
+Proof.
+  unfold parse. pose proof (p_chain_nofuel s) as H.
+  destruct (p_chain (S (length s)) s) as [e|e c r|]; [discriminate|destruct e; discriminate|congruence].
+Qed.
+
+(* ---------- more fuel, same result ---------- *)
+Definition agree {A} (pe pe' : list N -> pres A) : Prop := forall s, pe s <> PFuel -> pe' s = pe s.
+
+Lemma por_nofuel {A} e (p : pres A) : por e p <> PFuel -> p <> PFuel.
+Proof. intros H E. subst p. apply H. reflexivity. Qed.
+
+Lemma pbind_agree {A B} (p p' : pres A) (k k' : A -> list N -> pres B) :
+  pbind p k <> PFuel -> (p <> PFuel -> p' = p) -> (forall a r, k a r <> PFuel -> k' a r = k a r) ->
+  pbind p' k' = pbind p k.
+Proof.
+  intros H Hp Hk. assert (Hn : p <> PFuel) by (intros ->; apply H; reflexivity). rewrite (Hp Hn).
+  destruct p as [e|e a r|]; cbn [pbind] in *; [reflexivity| |congruence].
+  rewrite Hk; [reflexivity|]. eapply por_nofuel; eauto.
+Qed.
+Lemma palt_agree {A} (p p' : pres A) q q' :
+  palt p q <> PFuel -> (p <> PFuel -> p' = p) -> (q tt <> PFuel -> q' tt = q tt) -> palt p' q' = palt p q.
+Proof.
+  intros H Hp Hq. assert (Hn : p <> PFuel) by (intros ->; apply H; reflexivity). rewrite (Hp Hn).
+  destruct p as [e|e a r|]; cbn [palt] in *; [|reflexivity|congruence].
+  rewrite Hq; [reflexivity|]. eapply por_nofuel; eauto.
+Qed.
+
+Section Agree.
+Variables pe pe' : list N -> pres expr.
+Hypothesis Hag : agree pe pe'.
+
+Lemma p_paren_agree : agree (p_paren pe) (p_paren pe').
+Proof using Hag.
+  intros s H. unfold p_paren in *. destruct (lit [40] s) as [r|]; [|reflexivity].
+  apply pbind_agree; [exact H|apply Hag|auto].
+Qed.
+Lemma p_base_agree : agree (p_base pe) (p_base pe').
+Proof using Hag.
+  intros s H. unfold p_base in *. apply palt_agree; [exact H|apply p_paren_agree|auto].
+Qed.
+Lemma p_shift_agree : agree (p_shift pe) (p_shift pe').
+Proof using Hag.
+  intros s H. unfold p_shift in *. apply palt_agree; [exact H| |].
+  - intros H1. apply pbind_agree; [exact H1|apply p_base_agree|auto].
+  - intros H2. apply palt_agree; [exact H2| |apply p_base_agree].
+    destruct (p_dblop (skipws s)) as [r|]; [|reflexivity]. intros H3.
+    apply pbind_agree; [exact H3|apply p_base_agree|auto].
+Qed.
+Lemma p_addrest_agree n : forall e acc s, p_addrest pe n e acc s <> PFuel -> p_addrest pe' n e acc s = p_addrest pe n e acc s.
+Proof using Hag.
+  induction n as [|n IH]; intros e acc s H; [reflexivity|]. cbn [p_addrest] in *.
+  destruct (p_addop (skipws s)) as [r|]; [|reflexivity].
+  assert (Hs : p_shift pe (skipws r) <> PFuel) by (intros E; rewrite E in H; apply H; reflexivity).
+  rewrite (p_shift_agree _ Hs). destruct (p_shift pe (skipws r)) as [f|f y r2|]; [reflexivity| |reflexivity].
+  now apply IH.
+Qed.
+Lemma p_add_agree : agree (p_add pe) (p_add pe').
+Proof using Hag.
+  intros s H. unfold p_add in *. apply pbind_agree; [exact H|apply p_shift_agree|].
+  intros x r H1. apply pbind_agree; [exact H1|apply p_addrest_agree|auto].
+Qed.
+
+Lemma p_assignment_agree : agree (p_assignment pe) (p_assignment pe').
+Proof using Hag.
+  intros s H. unfold p_assignment in *. destruct (p_ident (skipws s)) as [[n r]|]; [|reflexivity].
+  destruct (lit [61] (skipws r)) as [r2|]; [|reflexivity]. apply pbind_agree; [exact H|apply Hag|auto].
+Qed.
+Lemma p_return_agree : agree (p_return pe) (p_return pe').
+Proof using Hag.
+  intros s H. unfold p_return in *. apply pbind_agree; [exact H|apply Hag|auto].
+Qed.
+Lemma p_assignments_agree n : agree (p_assignments pe n) (p_assignments pe' n).
+Proof using Hag.
+  induction n as [|n IH]; intros s H; [reflexivity|]. cbn [p_assignments] in *.
+  assert (Ha : p_assignment pe s <> PFuel) by (intros E; rewrite E in H; apply H; reflexivity).
+  rewrite (p_assignment_agree _ Ha). destruct (p_assignment pe s) as [f|f a r|]; [reflexivity| |reflexivity].
+  assert (Hr : p_assignments pe n r <> PFuel) by (intros E; rewrite E in H; apply H; reflexivity).
+  now rewrite (IH _ Hr).
+Qed.
+End Agree.
+
+Lemma p_expr_step f : agree (p_expr f) (p_expr (S f)).
+Proof.
+  induction f as [|f IH]; intros s H; [exfalso; apply H; reflexivity|].
+  change (p_add (p_expr (S f)) s = p_add (p_expr f) s). apply p_add_agree; [exact IH|exact H].
+Qed.
+Lemma p_expr_mono f k : agree (p_expr f) (p_expr (f + k)).
+Proof.
+  induction k as [|k IH]; intros s H; [now rewrite Nat.add_0_r|].
+  rewrite Nat.add_succ_r. rewrite (p_expr_step (f + k)); [now apply IH|]. rewrite (IH s H). exact H.
+Qed.
+
+(* any fuel from length + 1 upwards gives the same answer as the one the entry point passes *)
+Theorem p_chain_fuel_mono s f : (S (length s) <= f)%nat -> p_chain f s = p_chain (S (length s)) s.
+Proof.
+  intros Hf. replace f with (S (length s) + (f - S (length s)))%nat by lia.
+  set (f0 := S (length s)). set (k := (f - f0)%nat).
+  pose proof (p_chain_nofuel s) as Hn. fold f0 in Hn. unfold p_chain in *. cbv zeta in *.
+  pose proof (p_expr_mono f0 k) as Hag.
+  apply pbind_agree; [exact Hn|apply p_assignments_agree; exact Hag|].
+  intros l r H1. apply pbind_agree; [exact H1|apply p_return_agree; exact Hag|auto].
 Qed.
